@@ -11,7 +11,9 @@ the elliptic-curve tweak of the internal key is btclib's).
 Inner scripts: (a) uniformly random octets, (b) a short sequence over all 256
 opcode byte values with small pushes in between and nothing (or OP_1) in
 front, so that every byte value is reachable in executed position, (c) a
-valid little script with one byte replaced.
+valid little script with one byte replaced. Signature checks are given keys
+that are well-formed but not points of the curve, and signatures that pass
+every encoding gate, so that the verification itself is what answers.
 """
 
 from __future__ import annotations
@@ -58,9 +60,40 @@ def _item(ch: Choices, label: str) -> bytes:
     return (bytes([ch.pick([0, 1, 2, 16, 0x80, 0x81, 0xFF], label + ".b")]) if n == 1 else blob(ch, n, label))
 
 
+_P = 2**256 - 2**32 - 977
+_N = 0xFFFFFFFFFFFFFFFFFFFFFFFFFFFFFFFEBAAEDCE6AF48A03BBFD25E8CD0364141
+
+
+def der_sig(ch: Choices, label: str = "dersig") -> bytes:
+    """A signature that passes every encoding gate (strict DER, low s, a defined hash type) and signs nothing."""
+    r = 1 + ch.draw(_N - 1, label + ".r") if ch.draw(3, label + ".rk") else ch.pick([1, 0x7F, 0x80, 2**255], label + ".redge")
+    s_ = 1 + ch.draw(_N // 2, label + ".s") if ch.draw(3, label + ".sk") else ch.pick([1, 0x7F, 0x80, _N // 2], label + ".sedge")
+
+    def integer(v: int) -> bytes:
+        b = v.to_bytes((v.bit_length() + 8) // 8, "big")
+        return b"\x02" + bytes([len(b)]) + b
+
+    body = integer(r) + integer(s_)
+    return b"\x30" + bytes([len(body)]) + body + bytes([ch.pick([1, 1, 2, 3, 0x81, 0x82, 0x83], label + ".type")])
+
+
+def off_curve_key(ch: Choices, label: str = "offkey") -> bytes:
+    """Well-formed by size and prefix, and not a point of secp256k1."""
+    while True:
+        x = ch.draw(_P, label + ".x")
+        if pow(x**3 + 7, (_P - 1) // 2, _P) != 1:
+            break
+    k = ch.draw(4, label + ".form")
+    if k < 2:
+        return bytes([2 + k]) + x.to_bytes(32, "big")
+    return bytes([(4, 6 + ch.draw(2, label + ".hybrid"))[k - 2]]) + x.to_bytes(32, "big") + ch.nbytes(32, label + ".y")
+
+
 def _little_scripts(ch: Choices, pool: Pool) -> list[bytes]:
     pk, x = push(pool.pub33()), push(pool.xonly())
+    bad = push(off_curve_key(ch))
     return [
+        bad + b"\xac", b"\x51" + bad + pk + b"\x52\xae", b"\x51" + pk + bad + b"\x52\xae", push(bad[2:34]) + b"\xac", bad + b"\xad\x51",
         b"\x51", b"\x51\x69\x51", pk + b"\xac", x + b"\xac", b"\x76\xa9" + push(ch.nbytes(20, "tmpl.h20")) + b"\x88\xac",
         b"\x63\x51\x67\x00\x68", b"\x52\x53\x93\x55\x87", b"\xa8" + push(ch.nbytes(32, "tmpl.h32")) + b"\x87",
         push(bytes([1 + ch.draw(16, "tmpl.csv")])) + b"\xb2\x75\x51", x + b"\xac" + x + b"\xba\x52\x9c", b"\x51" + pk + pk + b"\x52\xae",
@@ -99,6 +132,11 @@ class Spend:
 def spend(ch: Choices, pool: Pool, form: str) -> Spend:
     kind, script = inner_script(ch, pool)
     stack = [_item(ch, "stack.item") for _ in range(ch.draw(5, "stack.n"))]
+    if script[-1:] in (b"\xac", b"\xae") or script[-2:-1] == b"\xad":
+        # a signature check ends the script: in half the runs the stack is what reaches the verification itself,
+        # a signature that passes the encoding gates (with CHECKMULTISIG's dummy under it)
+        if ch.draw(2, "stack.sigs"):
+            stack = [b"", der_sig(ch)] if script[-1:] == b"\xae" else [der_sig(ch)]
     if form == "p2sh":
         minimal = bool(ch.draw(4, "stack.minimal"))
         script_sig = b"".join(push(item, minimal) for item in stack) + push(script, len(script) <= 75)
